@@ -14,6 +14,7 @@ import (
 	tpb "github.com/fullstorydev/grpchan/grpchantesting"
 	"github.com/fullstorydev/grpchan/httpgrpc"
 	"google.golang.org/grpc/codes"
+	"google.golang.org/grpc/metadata"
 	"google.golang.org/protobuf/encoding/protojson"
 	"google.golang.org/protobuf/proto"
 
@@ -187,6 +188,11 @@ func checkC11(e *core.Env) {
 			}
 			if r.Intn(2) == 0 {
 				sc.Ret = Ret{How: "recverr"}
+			}
+			if r.Intn(4) == 0 {
+				// trailer metadata, sometimes of a kind the trailer message cannot carry: the reply must
+				// still end with exactly one trailer frame
+				sc.Handler = append(sc.Handler, Op{Op: "settrl", MD: metadata.MD{"t-bin": {pick(r, "plain", "\xff\xfe", "\x00\xc3")}, "t": {pick(r, "v", "\xc3\x28")}}})
 			}
 		}
 		if r.Intn(5) == 0 {
